@@ -50,9 +50,17 @@ def import_closure(roots):
     return sorted(os.path.join(LEAN, *m.split('.')) + '.lean' for m in seen)
 
 
+# property theorems that live in a continuation file (the lemma files they rest on import Props/<pid>.lean)
+EXTRA_PROPS = {'C10': ['C10World']}
+
+
+def prop_modules(pid):
+    return ['HealSparse.Props.' + x for x in [pid] + EXTRA_PROPS.get(pid, [])]
+
+
 def forbidden_tokens(pid=None):
     hits = []
-    files = lean_files() if pid is None else import_closure(['HealSparse.Props.' + pid, 'Driver'])
+    files = lean_files() if pid is None else import_closure(prop_modules(pid) + ['Driver'])
     for f in files:
         src = strip_comments(open(f).read())
         for i, line in enumerate(src.split('\n'), 1):
@@ -62,8 +70,14 @@ def forbidden_tokens(pid=None):
 
 
 def theorem_names(pid):
-    """Fully qualified names of the theorems declared in Props/<pid>.lean."""
-    path = os.path.join(LEAN, 'HealSparse', 'Props', pid + '.lean')
+    """Fully qualified names of the theorems declared in Props/<pid>.lean (and its continuation files)."""
+    names = []
+    for x in [pid] + EXTRA_PROPS.get(pid, []):
+        names += theorem_names_file(os.path.join(LEAN, 'HealSparse', 'Props', x + '.lean'))
+    return names
+
+
+def theorem_names_file(path):
     src = strip_comments(open(path).read())
     names, ns = [], []
     for line in src.split('\n'):
@@ -93,7 +107,8 @@ def audit(pid):
     os.makedirs(os.path.join(LEAN, 'Audit'), exist_ok=True)
     apath = os.path.join(LEAN, 'Audit', pid + '.lean')
     with open(apath, 'w') as f:
-        f.write("import HealSparse.Props.%s\n" % pid)
+        for mod in prop_modules(pid):
+            f.write("import %s\n" % mod)
         for n in names:
             f.write("#print axioms %s\n" % n)
     rc, out = sh("lake env lean Audit/%s.lean" % pid)
